@@ -7,6 +7,7 @@ mod fam_validate;
 mod fam_scope;
 mod fam_glob;
 mod fam_hist;
+mod fam_conc;
 mod util;
 
 use codec::Tok;
@@ -18,6 +19,8 @@ fn run_case(fam: i64, case: &[Vec<Tok>]) -> Vec<Vec<Tok>> {
         2 => case.iter().map(|l| fam_validate::run_line(l)).collect(),
         14 => fam_glob::run_case(case),
         1 => fam_hist::run_case(case),
+        11 => case.iter().map(|l| fam_conc::run_trace_line(l)).collect(),
+        12 => case.iter().map(|l| fam_conc::run_sched_line(l)).collect(),
         5 => case.iter().map(|l| fam_scope::run_line(l)).collect(),
         _ => vec![vec![-99]],
     }
